@@ -282,7 +282,7 @@ def peel_transparent(n, extra=()):
             if c and c["name"] in ("from", "into") and c.get("trait", "").startswith("std::convert::"):
                 n = n["args"][0]
                 continue
-            if f.get("k") == "Path" and f.get("res", {}).get("ctor_path", "").endswith("Option::Some"):
+            if f.get("k") == "Path" and f.get("res", {}).get("ctor_path", "").split("::")[-1] == "Some":
                 n = n["args"][0]
                 continue
         return n
